@@ -36,7 +36,14 @@ fn subst(op: &Op, root: &str) -> Op {
 /// owners: each backend's default owner becomes a symbol
 fn norm_tree(t: &Tree, root: &str, default_owner: (u32, u32)) -> Vec<(String, String)> {
     let st = |s: &str| s.strip_prefix(root).map(|r| if r.is_empty() { "/".to_string() } else { r.to_string() }).unwrap_or(s.to_string());
-    let own = |o: (u32, u32)| if o == default_owner { "default".to_string() } else { format!("{}:{}", o.0, o.1) };
+    // each backend's default uid / gid becomes a symbol, component by component
+    let own = |o: (u32, u32)| {
+        format!(
+            "{}:{}",
+            if o.0 == default_owner.0 { "default".to_string() } else { o.0.to_string() },
+            if o.1 == default_owner.1 { "default".to_string() } else { o.1.to_string() }
+        )
+    };
     t.nodes
         .iter()
         .filter(|(k, _)| is_under(k, root) || root == "/")
@@ -189,6 +196,12 @@ pub fn check_diff(case: &DiffCase) -> CaseResult {
             result = Err(Failure::new(format!("{}|{}|result:{}", name, ac, sym), format!("call {} {:?}: Memfs {:?} Stdfs {:?}", i + 1, op_t, a, b)));
             break;
         }
+        if a.is_err() && matches!(name, "chmod" | "chmod_b" | "chown" | "chown_b" | "copy" | "copy_b" | "remove_all") {
+            // a failing multi-entry call stops wherever its (unordered) traversal was: the partial
+            // effect is not comparable; the case ends here
+            ctx().exclude(1);
+            break;
+        }
         let tm = tree_from_dump(&mem.verif_dump());
         let mut td = tree_from_disk(&root);
         rekey(&mut td, &root);
@@ -242,7 +255,7 @@ pub fn sweep_trees(c: &Ctx, den: u64, unprivileged: bool) {
                 continue;
             }
             let arg = if p == "/" { "@".to_string() } else { format!("@{}", p) };
-            calls.extend(single_path_ops(&arg, false).into_iter().filter(|o| !matches!(o, Op::SetCwd(_)) && !(unprivileged && matches!(o, Op::Chown(..) | Op::ChownB(..)))));
+            calls.extend(single_path_ops(&arg, true).into_iter().filter(|o| !matches!(o, Op::SetCwd(_)) && !(unprivileged && matches!(o, Op::Chown(..) | Op::ChownB(..)))));
         }
         for a in arg_paths {
             for b in arg_paths {
@@ -256,7 +269,17 @@ pub fn sweep_trees(c: &Ctx, den: u64, unprivileged: bool) {
         }
         let mut fps = vec![];
         for (ci, call) in calls.iter().enumerate() {
-            let case = DiffCase { setup: setup.clone(), calls: vec![call.clone()] };
+            // two-path calls are followed by reads of the destination and the source: stale data or
+            // bookkeeping left behind by the call only shows through later calls
+            let mut seq = vec![call.clone()];
+            if let [a, b] = call.paths()[..] {
+                for p in [b, a] {
+                    seq.push(Op::ReadAll(p.to_string()));
+                    seq.push(Op::ReadlinkAbs(p.to_string()));
+                    seq.push(Op::Paths(p.to_string()));
+                }
+            }
+            let case = DiffCase { setup: setup.clone(), calls: seq };
             if ci % 50 == 0 {
                 mark("diff", &serde_json::to_string(&case).unwrap());
             } else {
@@ -353,7 +376,7 @@ fn setup_for(t: &c09::TreeSpec) -> Option<Vec<Op>> {
 }
 
 pub fn run(c: &Ctx) {
-    c.set_rule("(a) every tree of the C09 namespace that lies in the property's pre-state domain (every link resolves to an existing non-link entry), mirrored under the same absolute sandbox prefix in Memfs and - from the Memfs dump, with std::fs only - on tmpfs; the two independent observers must agree before the call; x every single-path call form (44) on 9 argument paths and every two-path form (copy, move_p, symlink) on all ordered pairs; arguments through a link as an intermediate component are excluded by construction (counted). quick: a seeded quarter of the trees; thorough: all. (b) proptest histories of up to 25 calls from small random states (the step that leaves the domain is still compared, the history stops there). Oracle: same Ok/Err outcome, same values (owners after renaming each backend's default owner, unordered traversals as multisets), same tree seen by an independent std::fs walker (names, kinds, bytes, link targets, permission bits). Config: umask 022; euid 0 for everything and euid 65534 (a worker process that dropped privileges; ownership-changing calls left out, 1/24 resp. 1/3 of the trees) for the tree x call sweep. Non-trivial = call whose target exists, or a failing call; distinct by (tree, call).");
+    c.set_rule("(a) every tree of the C09 namespace that lies in the property's pre-state domain (every link resolves to an existing non-link entry), mirrored under the same absolute sandbox prefix in Memfs and - from the Memfs dump, with std::fs only - on tmpfs; the two independent observers must agree before the call; x every single-path call form (52, incl. chmod_b with follow / symbolic expressions and chown_b variants) on 10 argument paths and every two-path form (copy, move_p, symlink) on all ordered pairs; arguments through a link as an intermediate component are excluded by construction (counted). quick: a seeded quarter of the trees; thorough: all. (b) proptest histories of up to 25 calls from small random states (the step that leaves the domain is still compared, the history stops there). Oracle: same Ok/Err outcome, same values (owners after renaming each backend's default owner, unordered traversals as multisets), same tree seen by an independent std::fs walker (names, kinds, bytes, link targets, permission bits). Config: umask 022; euid 0 for everything and euid 65534 (a worker process that dropped privileges; ownership-changing calls left out, 1/24 resp. 1/3 of the trees) for the tree x call sweep. Non-trivial = call whose target exists, or a failing call; distinct by (tree, call).");
     c.assume("kernel + tmpfs semantics of this sandbox; euid sampled at 0 and 65534 only; set_cwd/cwd are compared in a dedicated serial step because the process cwd is global");
     unsafe {
         libc::umask(0o022);
